@@ -57,10 +57,34 @@ def evidence_table():
     return "\n".join(rows)
 
 
+def mutants_table():
+    tri = {}
+    tp = os.path.join(V, "mutation", "triage.json")
+    if os.path.exists(tp):
+        tri = json.load(open(tp))
+    rows = ["| Property | mutants | killed by the repo tests | caught by the quick check | not flagged: equivalent / outside the claim / hang | missed (then fixed) | missed (open) |", "|---|---|---|---|---|---|---|"]
+    tot = [0] * 6
+    for p in sorted(glob.glob(os.path.join(V, "mutation", "C*.jsonl"))):
+        pid = os.path.basename(p)[:3]
+        rs = [json.loads(l) for l in open(p) if l.strip()]
+        n = len(rs)
+        kt = sum(r["outcome"] == "killed-by-tests" for r in rs)
+        fixed = sum(1 for r in rs if r.get("first_outcome") and r["outcome"] == "caught")
+        caught = sum(r["outcome"] == "caught" for r in rs) - fixed
+        rest = [r for r in rs if r["outcome"] in ("survived", "harness-error")]
+        benign = [r for r in rest if tri.get("%s:%d" % (pid, r["k"]), ["?"])[0] in ("equivalent", "outside-claim", "hang")]
+        open_ = [r for r in rest if r not in benign]
+        rows.append("| %s | %d | %d | %d | %d | %d | %s |" % (pid, n, kt, caught, len(benign), fixed, ", ".join("#%d" % r["k"] for r in open_) or "-"))
+        for i, v in enumerate((n, kt, caught, len(benign), fixed, len(open_))):
+            tot[i] += v
+    rows.append("| all | %d | %d | %d | %d | %d | %d |" % tuple(tot))
+    return "\n".join(rows)
+
+
 def main():
     p = os.path.join(V, "DESIGN.md")
     s = open(p).read()
-    for name, fn in (("FIXES", fixes_table), ("SEEDS", seeds_table), ("EVIDENCE", evidence_table)):
+    for name, fn in (("FIXES", fixes_table), ("SEEDS", seeds_table), ("EVIDENCE", evidence_table), ("MUTANTS", mutants_table)):
         a, b = "<!-- AUTO:%s:BEGIN -->" % name, "<!-- AUTO:%s:END -->" % name
         if a in s and b in s:
             i, j = s.index(a) + len(a), s.index(b)
